@@ -13,3 +13,4 @@ import Stingray.Props.C10
 import Stingray.Props.C07
 import Stingray.Props.C11
 import Stingray.Props.C12
+import Stingray.Props.C08
